@@ -190,12 +190,19 @@ std::unique_ptr<NodeResult> GetRecordNode::evaluate(PSC::Context &ctx) {
     if (variable != nullptr && variable->isConstant)
         throw PSC::ConstAssignError(token, ctx, variable->name);
 
+    // the record is decoded into a copy first: a record that stops decoding half-way (a record or array whose
+    // later members do not match) must leave the variable as it was
     if (variable != nullptr) {
-        if (!file->getRecord(*variable, ctx))
+        PSC::Variable loaded(variable->name, variable->type, false, variable->parent, &variable->get<PSC::Value>());
+        if (!file->getRecord(loaded, ctx))
             throw PSC::RuntimeError(token, ctx, "Failed to read data from random file");
+        variable->set(&loaded.get<PSC::Value>(), true);
     } else {
-        if (!file->getRecord(*array, ctx))
+        PSC::Array loaded(*array);
+        loaded.init(ctx);
+        if (!file->getRecord(loaded, ctx))
             throw PSC::RuntimeError(token, ctx, "Failed to read data from random file");
+        array->copyData(loaded);
     }
 
     return std::make_unique<NodeResult>(nullptr, PSC::DataType::NONE);
